@@ -1,5 +1,6 @@
 import Martian.Model.Har
 import Martian.Model.JsonString
+import Martian.Model.Query
 import Martian.Drv.C15
 /-! Driver for C16: `hreq`, `hres`, `jsonpd`, `jsoncontent` (see go/internal/c16). -/
 namespace Martian.Drv.C16
@@ -49,10 +50,21 @@ def step (s : St) (toks : List String) : St × String :=
   | "hres" :: spec :: _mode :: infl :: rest =>
     match parseCapture spec, parseMsg rest with
     | some c, some m =>
+      -- a decoded body too big to travel in the op comes as `h:<len>:<hash>`: the model treats it as an
+      -- opaque value (the token's own bytes stand for it); where the logged text IS that value, its
+      -- length and token are printed. The model has no size bound anywhere.
+      let big := infl.startsWith "h:"
+      let standIn : Bytes := infl.toUTF8.toList
       let inflate : Bytes → Bytes → Option Bytes := fun _ x =>
-        if infl = "err" || infl = "na" || some x != m.body then none else unhex infl
+        if infl = "err" || infl = "na" || some x != m.body then none
+        else if big then some standIn else unhex infl
       match logResponse inflate c m with
-      | some r => (s, s!"ok {r.status} {hex r.httpVersion} {r.bodySize} {showKVs r.headers} {hex r.redirectURL} {r.content.size} {hex r.content.mime} {hex r.content.text}")
+      | some r =>
+        let (size, text) :=
+          if big && r.content.text == standIn && r.content.size == standIn.length then
+            (((infl.splitOn ":").getD 1 "0"), infl)
+          else (toString r.content.size, hex r.content.text)
+        (s, s!"ok {r.status} {hex r.httpVersion} {r.bodySize} {showKVs r.headers} {hex r.redirectURL} {size} {hex r.content.mime} {text}")
       | none => (s, "err")
     | _, _ => (s, "bad-op")
   | ["jsonpd", mime, params, text] =>
@@ -73,6 +85,10 @@ def step (s : St) (toks : List String) : St × String :=
       (s, (if j.encoding.isSome then "base64 " else "text ") ++ (if rt == "ok" then hex j.text else "?") ++ " rt=" ++ rt
             ++ " obj=" ++ hex (contentObj j))
     | _, _ => (s, "bad-op")
+  | ["query", x] =>
+    match unhex x with
+    | some raw => (s, "query " ++ showKVs (harQuery raw))
+    | none => (s, "bad-op")
   | ["jsonstr", "enc", x] =>
     match unhex x with
     | some b =>
